@@ -48,3 +48,24 @@ Definition outcome_code (o : option outcome) : Z :=
   | Some (OErr (EOrig c)) => 1000 + Z.of_nat c
   | Some (OErr (EKilled c)) => 2000 + Z.of_nat c
   end.
+
+(* ---------- decidable premises of the shutdown theorem (Proof/MailboxFailShutdown.v), evaluated by the harness
+   on the network derived from every real processor ---------- *)
+Local Open Scope nat_scope.
+Definition cover_b (nt : net) (st : nstate) (main : nat) : bool :=
+  let nmb := length (mbs st) in
+  let nth := length (ths st) in
+  n_f1 nt && (1 <=? nmb)
+  && forallb (fun j => existsb (Nat.eqb j) (n_kill nt)) (seq 0 nmb)
+  && forallb (fun j => j <? nmb) (n_kill nt)
+  && forallb (fun i => (i =? main) || existsb (Nat.eqb i) (n_join nt)) (seq 0 nth)
+  && negb (existsb (Nat.eqb main) (n_join nt))
+  && forallb (fun p => Bool.eqb (is_main (snd p)) (fst p =? main)) (combine (seq 0 nth) (ths st))
+  && forallb (fun t => forallb (fun r => r_mb r <? nmb) (t_rd t)) (ths st).
+
+
+Definition init_ok_b (boxes : list mbox) (threads : list thread) : bool :=
+  forallb (fun t => match t_pc t with PRead => true | _ => false end
+                    && forallb (fun r => match r_buf r with [] => true | _ => false end) (t_rd t)) threads
+  && forallb (fun m => match mb_box m with [] => true | _ => false end) boxes.
+
